@@ -19,7 +19,7 @@ RULE = ("per group/algebra: random poses X, Y (rotation 0..pi, translations log-
 ASSUMPTIONS = ["operations that raise NotImplementedError (Ad and bracket on direct products) are out of scope",
                "numpy/scipy oracles; CasADi VM"]
 N_QUICK = 6000
-N_THOROUGH = 100000
+N_THOROUGH = 250000
 
 
 def run(ctx):
